@@ -107,6 +107,13 @@ pub trait EntropySource {
     /// generate a random f64 value.
     fn gen_f64(&mut self) -> f64;
 
+    /// generate a random f64 in the unit interval [0, 1), for probability gates.
+    ///
+    /// unlike `gen_f64()` the result is in [0, 1) for both entropy sources (0.0 when
+    /// fuzzer bytes are exhausted), so `gen_unit_f64() >= rate` never fires at rate 0.0
+    /// and always fires at rate 1.0.
+    fn gen_unit_f64(&mut self) -> f64;
+
     /// generate a random value in the given range [min, max).
     fn gen_range(&mut self, min: usize, max: usize) -> usize;
 
@@ -190,6 +197,16 @@ impl<'a> EntropySource for GenerationSource<'a> {
             GenerationSource::Arbitrary(u) => {
                 // arbitrary crate doesn't have float64(), use arbitrary() instead
                 u.arbitrary().unwrap_or(0.0)
+            }
+        }
+    }
+
+    fn gen_unit_f64(&mut self) -> f64 {
+        match self {
+            GenerationSource::Rand(rng) => rng.random(),
+            // 32 fuzzer bits scaled into [0, 1)
+            GenerationSource::Arbitrary(u) => {
+                u.arbitrary::<u32>().unwrap_or(0) as f64 / 4_294_967_296.0
             }
         }
     }
